@@ -430,7 +430,7 @@ def _empty_index_item(it):
 def _f45(vio):
     items = _slice_items(vio)
     return vio.get("kind") in ("wrong-value", "unexpected-error", "process-death", "value-differs",
-                               "outcome-kind-differs") and \
+                               "outcome-kind-differs", "invalid-result") and \
         _op_of(vio).get("op") == "getitem" and any(_empty_index_item(it) for it in items)
 
 
@@ -533,6 +533,11 @@ def _f15b(vio):
             if model.param(n, "__array__") == "categorical" and model.param(n["content"], "__array__") == "string":
                 return True
     return False
+
+
+@mechanism("F67-validity-categorical-unsortable")
+def _f67(vio):
+    return vio.get("kind") == "validity-check-raised" and "FIXME: sort for" in str(vio.get("detail"))
 
 
 @mechanism("F10-reduce-nonlocal")
